@@ -530,6 +530,29 @@ def _entry_paths(ctx, m):
     # rows
     meths = _grid.grid_methods(ctx)
     _grid.refuse_before_write(ctx, meths, 'C10.D2')
+    _grid.extend_own(ctx, meths, 'C10.D2', want=('validate',))
+    # the validating containers of a grid are created in its own __init__ and never swapped for another grid's
+    foreign = []
+    for node in ast.walk(m.mod('grid').tree):
+        if isinstance(node, ast.Assign):
+            for t in node.targets:
+                if isinstance(t, ast.Attribute) and t.attr in ('metadata', 'column'):
+                    fn_ = node
+                    while fn_ is not None and not isinstance(fn_, ast.FunctionDef):
+                        fn_ = getattr(fn_, '_parent', None)
+                    if fn_ is None or fn_.name != '__init__':
+                        foreign.append((node, fn_))
+    if foreign:
+        node, fn_ = foreign[0]
+        ctx.violation('C10.D2', 'hszinc/grid.py::Grid.%s' % (fn_.name if fn_ is not None else '?'), norm(node),
+                      'g = Grid() (unversioned, still 2.0); s = g[0:1]; s.metadata["x"] = NA: the slice adopted the parent\'s metadata '
+                      'container, whose validator is bound to the PARENT -- the parent upgrades to 3.0 while the slice keeps reporting '
+                      '2.0 and holds the value (an explicit 2.0 slice would not refuse it either)',
+                      'a grid\'s metadata/column container is replaced by another grid\'s (`%s`): its validate callback belongs to '
+                      'the other grid' % norm(node), file='hszinc/grid.py', line=node.lineno, engine='E7')
+    else:
+        ctx.ob('C10.D2', 'metadata and column containers are only created in Grid.__init__, bound to the grid\'s own validator', True,
+               'hszinc/grid.py')
     for name in ('insert', '__setitem__'):
         if ctx.facts.get('validates:%s' % name):
             ctx.ob('C10.D2', 'Grid.%s validates every value of the row before storing it' % name, True)
